@@ -17,6 +17,8 @@ SmallRecs == {r \in FileRecs : r.dir \in {0, 2, 3} /\ (r.ev \/ (r.tk = "go" /\ ~
 \* reduced description set for the history-heavy runs
 HistRecs == {r \in FileRecs : r.dir \in {0, 2, 3} /\ (r.ev \/ (r.tk = "go" /\ ~r.us)) /\ (r.tk = "stop" => ~r.us)}
 TreesH == TreesOver(HistRecs, 2, {<<>>, <<"go">>})
+\* quick tier: the same without the one-level directory
+TreesQ == TreesOver({r \in HistRecs : r.dir # 2}, 2, {<<>>, <<"go">>})
 Trees2 == TreesOver(FileRecs, 2, {<<>>, <<"go">>})
 Trees1 == TreesOver(FileRecs, 1, {<<>>, <<"go">>})
 Trees3 == TreesOver(SmallRecs, 3, {<<>>, <<"go">>})
